@@ -120,8 +120,8 @@ class Session:
     def mkid(self, rng=None):
         rng = rng or self.rng
         if self.flavour == "expl":
-            return rng.choice(["X", "Y", 7, 8, None, 0, ""])
-        return None if rng.random() < 0.93 else rng.choice(["X", 7, 0, ""])
+            return rng.choice(["X", "Y", 7, 8, None, 0, "", "a", "b"])  # "a", "b": an id that equals another node's *data*
+        return None if rng.random() < 0.93 else rng.choice(["X", 7, 0, "", 2, "a"])
 
     def count(self, k, n=1):
         self.counters[k] = self.counters.get(k, 0) + n
@@ -329,6 +329,22 @@ class Session:
             outcome = M.Refuse(M.UNSUP, "target belongs to another tree")
             tgt = other if op.get("to_tree") else list(other)[op.get("idx", 0) % 3]
             call = lambda: self.bind[op["node"]].move_to(tgt)
+        elif k == "stale_use":
+            # a node object the caller kept after it was removed (remove / remove_children / clear / filter) is used again:
+            # whatever the call does, it must not change the live tree
+            g = self.graveyard[op["gi"] % len(self.graveyard)][0]
+            outcome = M.Refuse(M.INVALID, "node was removed from the tree earlier")
+            live = self.real(op["live"])
+            act = op["act"]
+            extra = {"kind": "ka"} if self.typed else {}
+            call = {"add": lambda: g.add("stale-child", **extra),
+                    "move_to_live": lambda: g.move_to(live),
+                    "live_move_to": lambda: live.move_to(g) if live is not t else g.move_to(t),
+                    "remove": lambda: g.remove(),
+                    "set_data": lambda: g.set_data("stale-data"),
+                    "rm_children": lambda: g.remove_children(),
+                    "add_before": lambda: live.add("stale-sibling", before=g, **extra),
+                    "copy_into": lambda: g.add(live, **({} if live is t else extra)) if live is not t else g.add("x", **extra)}[act]
         elif k == "remove":
             n = m.find(op["node"])
             outcome = m.remove(n, bool(op.get("keep_children")), bool(op.get("with_clones")))
@@ -707,13 +723,13 @@ class Session:
 # ---------------------------------------------------------------------------
 PROFILES = {
     # weights per op kind
-    "c01": {"move_foreign": 0.6, "add": 10, "sibling": 3, "addnode": 5, "copy_children": 2, "move": 9, "remove": 9, "remove_children": 2, "clear": 0.4,
+    "c01": {"stale_use": 3, "move_foreign": 0.6, "add": 10, "sibling": 3, "addnode": 5, "copy_children": 2, "move": 9, "remove": 9, "remove_children": 2, "clear": 0.4,
             "del": 2, "sort": 2, "set_data": 4, "rename": 1, "filter": 2, "addtree": 2, "meta": 1},
-    "c02": {"move_foreign": 0.6, "add": 10, "sibling": 2, "addnode": 6, "copy_children": 1, "move": 4, "remove": 7, "remove_children": 1, "clear": 0.3,
+    "c02": {"stale_use": 1.5, "move_foreign": 0.6, "add": 10, "sibling": 2, "addnode": 6, "copy_children": 1, "move": 4, "remove": 7, "remove_children": 1, "clear": 0.3,
             "del": 2, "sort": 1, "set_data": 14, "rename": 2, "filter": 2, "addtree": 1, "meta": 0},
-    "c03": {"move_foreign": 0.6, "add": 8, "sibling": 4, "addnode": 8, "copy_children": 4, "move": 10, "remove": 8, "remove_children": 1, "clear": 0.2,
+    "c03": {"stale_use": 2.5, "move_foreign": 0.6, "add": 8, "sibling": 4, "addnode": 8, "copy_children": 4, "move": 10, "remove": 8, "remove_children": 1, "clear": 0.2,
             "del": 1, "sort": 1, "set_data": 10, "rename": 3, "filter": 1, "addtree": 4, "meta": 0},
-    "c04": {"move_foreign": 0.6, "add": 10, "sibling": 4, "addnode": 4, "copy_children": 2, "move": 8, "remove": 7, "remove_children": 2, "clear": 0.3,
+    "c04": {"stale_use": 1.5, "move_foreign": 0.6, "add": 10, "sibling": 4, "addnode": 4, "copy_children": 2, "move": 8, "remove": 7, "remove_children": 2, "clear": 0.3,
             "del": 2, "sort": 3, "set_data": 5, "rename": 2, "filter": 1, "addtree": 2, "meta": 5},
 }
 
@@ -735,7 +751,8 @@ def _pick_before(rng, m, P_, hostile, allow_unspec, exclude=None):
     K = [c for c in m.kids(P_) if c is not exclude]
     choices = [None, None, True, False]
     if K:
-        choices += [("idx", rng.randrange(len(K))), ("node", rng.choice(K).uid), ("node", K[0].uid), ("node", K[-1].uid), ("idx", 0)]
+        choices += [("idx", rng.randrange(len(K))), ("node", rng.choice(K).uid), ("node", K[0].uid), ("node", K[-1].uid), ("idx", 0),
+                    ("idx", -rng.randint(1, len(K)))]
     else:
         choices += [("idx", 0)]
     if hostile:
@@ -744,7 +761,7 @@ def _pick_before(rng, m, P_, hostile, allow_unspec, exclude=None):
             choices.append(("node", rng.choice(allnodes).uid))  # often a node of another parent
         choices += [("raw", rng.choice(["str", "float", "tuple"]))]  # not a valid position type at all
         if allow_unspec:
-            choices += [("idx", len(K) + 2), ("idx", -1)]
+            choices += [("idx", len(K) + 2), ("idx", -len(K) - 1)]
     return rng.choice(choices)
 
 
@@ -866,6 +883,11 @@ def _gen_kind(s, rng, k, nodes, hostile, allow_unspec):
         return {"op": "remove_children", "node": rng.choice(nodes).uid}
     if k == "clear":
         return {"op": "remove_children", "node": ROOT}
+    if k == "stale_use":
+        if not s.graveyard:
+            return None
+        return {"op": "stale_use", "gi": rng.randrange(len(s.graveyard)), "live": anyp(),
+                "act": rng.choice(["add", "move_to_live", "live_move_to", "remove", "set_data", "rm_children", "add_before", "copy_into"])}
     if k == "del":
         if not nodes:
             return None
